@@ -385,3 +385,8 @@ def check(ctx, run):  # noqa: F811
     _check_before_precision(ctx, run)
     precision_rule(ctx, run)
     module_purity_rule(ctx, run)
+    # R7: the modules keep the configuration they were created with (the analyses above read it from the attributes)
+    from ..ctors import ctor_rule
+    N_ = "pfhedge.nn.modules."
+    ctor_rule(ctx, run, "C20.R7", [N_ + "clamp.Clamp", N_ + "clamp.LeakyClamp", N_ + "svi.SVIVariance", N_ + "ww.WhalleyWilmott"], None,
+              "the module computes with another bound mode / slope / parameter / derivative / risk aversion than the one it was created with")
